@@ -1,9 +1,173 @@
-//! C15: not built yet.
+//! C15: the NULL-dereference check (cwe_476) flags exactly the unchecked flows of the return value
+//! of configured allocation functions, for programs in which that value flows only through
+//! registers.  One case = random project -> the source calls the real `cwe_476::check_cwe` reports
+//! (function signatures and pointer inference are computed first, as in the pipeline).
+//! TLC decides with spec/TaintWalk.tla.
+//!
+//! Generator class ("flows only through registers"): registers are split into a MAY-TAINT pool
+//! (return registers of the sources and everything computed from them) and a NEVER-TAINT pool
+//! (only ever assigned from never-taint registers and constants); stores store never-taint
+//! expressions only (their ADDRESS may be tainted: that is a sink).  The stack pointer is never
+//! assigned and belongs to neither pool.
+use crate::irenc;
 use crate::out::Out;
-use serde_json::Value;
+use crate::rng::Rng;
+use crate::walkgen::*;
+use crate::walkrun::{run_checker_staged, Needs};
+use cwe_checker_lib::intermediate_representation::*;
+use serde_json::{json, Value};
 
-pub fn gen(_out: &mut Out, _sub: &str) {}
+const MT: [&str; 6] = ["RAX", "RDX", "RBX", "RCX", "RDI", "R12"];
+const NT: [&str; 6] = ["RSI", "R8", "R9", "R13", "RBP", "R10"];
 
-pub fn replay(_run: &[Value], _sub: &str) -> Vec<Value> {
-    Vec::new()
+fn any8(r: &mut Rng) -> Expression {
+    if r.chance(3, 5) { evar(pick_str(r, &MT)) } else { evar(pick_str(r, &NT)) }
+}
+fn nt_expr(r: &mut Rng) -> Expression {
+    match r.below(4) {
+        0 => econst(r.range(0, 64)),
+        1 => evar(pick_str(r, &NT)),
+        2 => ebin(BinOpType::IntAdd, evar(pick_str(r, &NT)), econst(r.range(1, 32))),
+        _ => ebin(BinOpType::IntXOr, evar(pick_str(r, &NT)), evar(pick_str(r, &NT))),
+    }
+}
+fn any_expr(r: &mut Rng) -> Expression {
+    match r.below(6) {
+        0 => econst(r.range(0, 64)),
+        1 | 2 => any8(r),
+        3 => ebin(BinOpType::IntAdd, any8(r), econst(r.range(1, 32))),
+        4 => ebin(BinOpType::IntAdd, any8(r), any8(r)),
+        _ => ebin(BinOpType::IntAnd, any8(r), econst(0xfff8)),
+    }
+}
+fn addr_expr(r: &mut Rng) -> Expression {
+    match r.below(5) {
+        0 => sp_off(-8 * r.range(1, 4)),
+        1 | 2 => any8(r),
+        _ => ebin(BinOpType::IntAdd, any8(r), econst(8 * r.range(0, 4))),
+    }
+}
+fn cmp(r: &mut Rng) -> Expression {
+    let op = *r.pick(&[BinOpType::IntEqual, BinOpType::IntNotEqual, BinOpType::IntLess, BinOpType::IntSLess]);
+    let rhs = if r.chance(2, 3) { econst(0) } else { any8(r) };
+    ebin(op, any8(r), rhs)
+}
+
+pub struct TaintHooks;
+impl Hooks for TaintHooks {
+    fn defs(&mut self, r: &mut Rng, _ctx: &BlkCtx) -> Vec<Def> {
+        let n = r.below(5);
+        (0..n)
+            .map(|_| match r.below(10) {
+                0..=3 => Def::Assign { var: reg(pick_str(r, &MT)), value: any_expr(r) },
+                4 => Def::Assign { var: reg(pick_str(r, &NT)), value: nt_expr(r) },
+                5 => Def::Assign { var: var("ZF", 1), value: cmp(r) },
+                6 | 7 => Def::Load { var: reg(if r.chance(2, 3) { pick_str(r, &MT) } else { pick_str(r, &NT) }), address: addr_expr(r) },
+                _ => Def::Store { address: addr_expr(r), value: nt_expr(r) },
+            })
+            .collect()
+    }
+    fn cond(&mut self, r: &mut Rng, _ctx: &BlkCtx) -> Expression {
+        if r.chance(1, 3) { Expression::Var(var("ZF", 1)) } else { cmp(r) }
+    }
+    fn pick_extern(&mut self, r: &mut Rng, _ctx: &BlkCtx, externs: &[ExternSymbol]) -> usize {
+        // sources (the first entries of the table) are called more often
+        if r.chance(1, 2) { r.below(externs.len().min(3) as u64) as usize } else { r.below(externs.len() as u64) as usize }
+    }
+}
+
+fn externs_c15(r: &mut Rng, two_cconvs: bool) -> Vec<ExternSymbol> {
+    let sub32 = |name: &str| Arg::Register {
+        expr: Expression::Subpiece { low_byte: ByteSize::new(0), size: ByteSize::new(4), arg: Box::new(evar(name)) },
+        data_type: None,
+    };
+    let mut v = vec![
+        mk_extern("malloc", vec![reg_arg("RDI")], vec![reg_arg("RAX")], false, None),
+        mk_extern("calloc", vec![reg_arg("RDI"), reg_arg("RSI")], vec![reg_arg("RAX")], false, None),
+    ];
+    if r.chance(1, 2) {
+        v.push(mk_extern("twin", vec![], vec![reg_arg("RAX"), reg_arg("RDX")], false, None));
+    }
+    if two_cconvs && r.chance(1, 2) {
+        v.push(mk_extern("getenv", vec![reg_arg("RCX")], vec![reg_arg("RAX")], false, Some("__fastalt")));
+    }
+    let pool: Vec<ExternSymbol> = vec![
+        mk_extern("free", vec![reg_arg("RDI")], vec![], false, None),
+        mk_extern("puts", vec![reg_arg("RSI")], vec![reg_arg("RAX")], false, None),
+        mk_extern("nop", vec![], vec![], false, None),
+        mk_extern("use3", vec![reg_arg("RDI"), reg_arg("RSI"), reg_arg("RDX")], vec![reg_arg("RAX")], false, None),
+        mk_extern("use32", vec![sub32("RDX")], vec![reg_arg("RAX")], false, None),
+        mk_extern("exit", vec![reg_arg("RDI")], vec![], true, None),
+        mk_extern("stk", vec![Arg::Stack { address: sp_off(8), size: ByteSize::new(8), data_type: None }, reg_arg("R8")], vec![], false, None),
+    ];
+    for e in pool {
+        if r.chance(3, 5) {
+            v.push(e);
+        }
+    }
+    if two_cconvs && r.chance(1, 2) {
+        v.push(mk_extern("altuse", vec![reg_arg("RCX"), reg_arg("RBX")], vec![reg_arg("RAX")], false, Some("__fastalt")));
+    }
+    v
+}
+
+fn knobs(two_cconvs: bool) -> Knobs {
+    Knobs {
+        subs: (1, 3), blocks: (2, 6), w_branch: 14, w_cbranch: 30, w_cbranch_ret: 6, w_return: 12, w_ext_call: 40, w_int_call: 10,
+        w_callind: 5, w_branchind: 3, w_nojump: 1, w_callother: 1, w_single_cbranch: 1, p_no_ret: 8, p_empty_sub: 3, p_forward: 60, p_chain: 0,
+        sub_cconvs: if two_cconvs { vec!["".to_string(), "__fastalt".to_string(), "__stdcall".to_string()] } else { vec!["".to_string()] },
+    }
+}
+
+pub fn exec(project: &Project, symbols: &Value) -> Value {
+    let r = run_checker_staged(project, "CWE476", &json!({"symbols": symbols}), Needs::PointerInference);
+    let (reported, stage, panic) = match r {
+        Ok(ws) => (ws.iter().map(|w| json!(w.tids.first().cloned().unwrap_or_default())).collect::<Vec<_>>(), "", String::new()),
+        Err((stage, p)) => (vec![], stage, p.lines().next().unwrap_or("").to_string()),
+    };
+    // stage: where a panic happened ("" none; "fnsig"/"pi": a prerequisite analysis crashed and the check never ran)
+    json!({"ev": "c15", "project": irenc::project(project), "symbols": symbols, "reported": reported, "stage": stage, "panic": panic})
+}
+
+pub fn gen(out: &mut Out, _sub: &str) {
+    let mut rng = Rng::new(out.seed ^ 0xC15);
+    let n = out.size(500, 10_000);
+    let seeds: Vec<Rng> = (0..n).map(|_| rng.fork()).collect();
+    let evs = crate::par::map(seeds, 4, |mut r| {
+        let two = r.chance(1, 2);
+        let externs = externs_c15(&mut r, two);
+        let program = gen_program(&mut r, &knobs(two), &externs, &mut TaintHooks);
+        let project = mk_project(program, if two { vec![cconv_std(), cconv_alt()] } else { vec![cconv_std()] });
+        let mut symbols: Vec<&str> = Vec::new();
+        for s in ["malloc", "calloc", "twin", "getenv", "xmalloc"] {
+            if r.chance(3, 4) {
+                symbols.push(s);
+            }
+        }
+        let nsrc = project.program.term.subs.values().flat_map(|s| s.term.blocks.iter()).flat_map(|b| b.term.jmps.iter())
+            .filter(|j| match &j.term {
+                Jmp::Call { target, return_: Some(_) } => project.program.term.extern_symbols.get(target).map(|e| symbols.contains(&e.name.as_str())).unwrap_or(false),
+                _ => false,
+            }).count();
+        (exec(&project, &json!(symbols)), nsrc)
+    });
+    let (mut sources, mut reported, mut prereq_panics) = (0u64, 0u64, 0u64);
+    for (ev, nsrc) in evs {
+        let nrep = ev["reported"].as_array().unwrap().len();
+        sources += nsrc as u64;
+        if ev["stage"] == "fnsig" || ev["stage"] == "pi" {
+            prereq_panics += 1;
+        }
+        reported += nrep as u64;
+        // non-trivial: the program has source calls of which some but not all are reported, or >= 2 are reported
+        let nontrivial = nsrc >= 1 && nrep >= 1;
+        out.emit(vec![ev], nontrivial);
+    }
+    out.extra.insert("source_calls".into(), json!(sources));
+    out.extra.insert("prerequisite_analysis_panics".into(), json!(prereq_panics));
+    out.extra.insert("reported_source_calls".into(), json!(reported));
+}
+
+pub fn replay(run: &[Value], _sub: &str) -> Vec<Value> {
+    run.iter().map(|e| exec(&dec::project(&e["project"]), &e["symbols"])).collect()
 }
